@@ -391,8 +391,12 @@ pub fn minimise_tape(check: &dyn Check, tape: &Tape, sig: &str, max_runs: u32) -
     best
 }
 
-/// Build /verif/fuzz (cargo-fuzz, nightly) against /repo's working tree and run the single `tape`
-/// target for this check with a fresh corpus directory. The semantic oracle is inside the target
+/// Build /verif/fuzz (cargo-fuzz, nightly, coverage instrumentation but no AddressSanitizer: every
+/// case allocates and frees several 1 MiB images, which ASan's quarantine and shadow poisoning
+/// slow down about 100-fold -- measured 0.4 vs 49 executions/s per job for C04 -- and redb's only
+/// unsafe code is the SIMD part of its XXH3 and the pread/pwrite file backend, which the harness
+/// does not use) against /repo's working tree and run the single `tape` target for this check
+/// with a fresh corpus directory. The semantic oracle is inside the target
 /// (same `run` as the random stage); a violation is reported through the replay file the target
 /// writes. A timeout/OOM inside libFuzzer is inconclusive (exit 2), never a violation.
 fn fuzz_stage(check: &dyn Check, seed: u64, plan: &Plan, corpus: &[(String, Tape)], acc: &mut Acc, failures: &mut Vec<(Failure, Option<Tape>)>) -> i32 {
@@ -401,7 +405,7 @@ fn fuzz_stage(check: &dyn Check, seed: u64, plan: &Plan, corpus: &[(String, Tape
     let jobs = 16u64;
     let runs_per_job = (check.fuzz_runs() / jobs).max(1);
     let build = Command::new("cargo")
-        .args(["+nightly", "fuzz", "build", "--fuzz-dir", &format!("{root}/fuzz"), "tape"])
+        .args(["+nightly", "fuzz", "build", "-s", "none", "--fuzz-dir", &format!("{root}/fuzz"), "tape"])
         .current_dir(format!("{root}/harness"))
         .env("RUSTFLAGS", "--cfg redb_verif")
         .env("CARGO_NET_OFFLINE", "true")
